@@ -110,7 +110,7 @@ func runHarness(e *Engine, harness string, witness []byte) (bool, string) {
 var propHarness = map[string]string{
 	"C01": "policy", "C02": "policy", "C03": "policy", "C04": "policy", "C05": "policy", "C06": "policy", "C07": "policy",
 	"C16": "disasm", "C14": "text", "C13": "text", "C12": "arch", "C09": "loader", "C10": "loader", "C11": "loader", "C08": "loader",
-	"C17": "profiler", "C18": "profiler",
+	"C17": "profiler", "C18": "profiler", "C19": "arch",
 }
 
 // kindsFor: which disagreement kinds of the family count as a failing input for the property.
@@ -120,7 +120,8 @@ var kindsFor = map[string][]string{
 	"C07": {"panic", "invalid-accepted", "error-with-program", "valid-rejected"},
 	"C14": {"roundtrip", "marshal", "config-parse", "config-unpack", "roundtrip-assemble", "action-roundtrip", "operation-roundtrip", "unknown-action", "action-accepts-garbage", "operation-case", "action-case"},
 	"C13": {"nondeterministic-text", "caller-policy-modified", "compile-differs", "recompile-differs", "compilations-influence-each-other", "result-overwritten"},
-	"C12": {"inverse", "alias", "unsupported"},
+	"C12": {"inverse", "alias", "unsupported", "panic"},
+	"C19": {"unsupported", "panic"},
 	"C17": {"incomplete-cache-reused", "failed-run-no-error", "complete-cache-not-reused"},
 	"C18": {"profile-set"},
 	"C16": {"panic", "silent-truncation", "bad-name", "not-monotone", "cross-function"},
